@@ -226,6 +226,12 @@ impl<T: Default + Reset + Traceable> Gc<T> {
         }
     }
 
+    /// Whether the heap this handle belongs to still exists. A handle may outlive its
+    /// heap (e.g. a C API value released after its context); it must then not be borrowed.
+    pub fn is_alive(&self) -> bool {
+        self.space.strong_count() > 0
+    }
+
     /// Get the object's unique ID (pointer address)
     pub fn id(&self) -> usize {
         self.ptr.as_ptr() as usize
